@@ -1249,7 +1249,8 @@ def digest_wallet(root, extra):
 
 
 # ===================================================================================== sub-space: Wallet
-W_EVENTS = ['main_key_private', 'as_dict_priv', 'keys', 'new_key', 'public_master', 'key_objects', 'transactions']
+W_EVENTS_Q = ['main_key_private', 'as_dict_priv', 'new_key', 'public_master', 'key_objects']
+W_EVENTS = W_EVENTS_Q + ['keys', 'transactions']
 W_EVENTS_NET = ['send']
 W_EVENTS_T = ['info', 'wif_private', 'as_dict', 'public_master_private', 'new_account', 'import_key']
 W_EVENTS_T_NET = ['utxos_update']
@@ -1313,8 +1314,8 @@ def w_event(box, ev):
     raise HarnessError('unknown event %s' % ev)
 
 
-def w_alphabet(mat, full):
-    events = list(W_EVENTS)
+def w_alphabet(mat, full, quick=False):
+    events = list(W_EVENTS_Q if quick else W_EVENTS)
     net = mat['net'] == 'bitcoinlib_test'
     if net:
         events += W_EVENTS_NET
@@ -1397,7 +1398,7 @@ def sub_wallet(case):
     if not cfg.get('full'):
         views = [v for v in views if v[0] != 'Wallet.info(detail=5)']
     s0, replays = explore_state(acc, nd, mat['kind'], hist, make, views, lambda b: b.state())
-    return acc.result({'state': s0, 'enabled': w_alphabet(mat, cfg.get('full'))})
+    return acc.result({'state': s0, 'enabled': w_alphabet(mat, cfg.get('full'), cfg.get('quick'))})
 
 
 # ===================================================================================== sub-space: WalletKey
@@ -1896,7 +1897,7 @@ def run(ctx):
                         if mat['kind'] in ('hd_segwit_test', 'multisig_test', 'single_btc')]
                 lv = bfs_multi(ctx, 'wallet', cfgs, 2)
                 bounds['wallet'] = [{'configs': [c['mat']['kind'] for c in cfgs], 'depth': 2,
-                                     'events': W_EVENTS + W_EVENTS_NET, 'levels': lv}]
+                                     'events': W_EVENTS_Q + W_EVENTS_NET, 'levels': lv}]
             else:
                 deep = ('hd_segwit_test', 'multisig_test', 'single_btc')
                 cfgs = [{'mat': mat, 'tpl': tpl, 'full': False} for mat, tpl in zip(mats, tpls)
